@@ -412,3 +412,43 @@ def c06(chk):
                         "the right data and recognises its own and the legacy encoding",
                         "trace direction uses indices below 2^31 (TLC integers are 32 bit); larger ones are covered by class 3 in "
                         "the replay direction"]
+
+
+# ------------------------------------------------------------------------------------------------
+# C09 — storage-backed generate/purge all-or-nothing under faults
+# ------------------------------------------------------------------------------------------------
+
+def flip_txn_case(rows, k=3):
+    out = []
+    for r in rows:
+        if r["result"] == "err" and r["calls"]:
+            r = json.loads(json.dumps(r))
+            r["result"] = "ok"
+            out.append(r)
+            if len(out) >= k:
+                break
+    if not out:
+        raise ToolError("canary: no failing behaviour")
+    return out
+
+
+@plan("C09")
+def c09(chk):
+    chk.rule = ("TLC explores the step machine of generate_method / purge_method (one action per storage call) from every "
+                "pre-state (target method absent / general-purpose / embedded in each relationship x every set of relationship "
+                "references incl. dangling ones) under EVERY subset of failing storage calls and checks all-or-nothing, "
+                "no-silent-orphan and references-kept when the call returns. Every complete behaviour is replayed on CoreDocument "
+                "and IotaDocument with fault-injecting wrappers around the shipped in-memory stores; result class, the exact "
+                "sequence of storage calls (name, failed), the abstract post-state, exact document restoration on error, store "
+                "cardinalities, sign+verify with a generated method and an untouched bystander are compared.")
+    r = chk.mc("StorageTxn", "StorageTxn_%s.cfg" % chk.tier, workers=4, timeout=600, heap="2g")
+    chk.replay(r["cases_file"], timeout=3000)
+    chk.canary_cases(r["cases_file"], flip_txn_case)
+    pre = vlib.tlc_model_check(chk.prop, "StorageTxn", "StorageTxn_prefix.cfg", emit=False, workers=2, timeout=300,
+                               expect_violation=True, heap="2g")
+    chk.extra["unrepaired_design_counterexample_found"] = bool(pre["violated"])
+    if not pre["violated"]:
+        raise ToolError("the unrepaired rollback design (reinsert) should violate AllOrNothing — the invariant is vacuous")
+    chk.level = "model_checking"
+    chk.assumptions += ["a failing storage call has no effect and returns an error (the fault model of the property)",
+                        "Ed25519/EdDSA only (the key type of the shipped in-memory store)"]
